@@ -145,8 +145,13 @@ public:
 			lock.l_type=F_WRLCK;
 			lock.l_whence=SEEK_SET;
 			int res;
-			while((res=fcntl(fd_,F_SETLKW,&lock))!=0 && errno==EINTR)
-				;
+			while((res=fcntl(fd_,F_SETLKW,&lock))!=0 && (errno==EINTR || errno==EDEADLK)) {
+				// Record locks belong to processes: when threads of several processes wait for each
+				// other's files the system may report a dead lock that does not exist, as no thread
+				// holds more than one file - try again
+				if(errno==EDEADLK)
+					::usleep(100);
+			}
 			if(res < 0) {
 				::close(fd_);
 				fd_=-1;
